@@ -22,6 +22,48 @@ CLAIMED = {
  "C18": dict(cat="proof", sec="DESIGN.md section 6, C18",
    text="Lean theorems over a session-protocol model parameterised by the regenerated dispatch table: before LOGIN every gated command is refused with no effect for ALL command sequences; selected-state commands need a selected mailbox; wrong credentials never authenticate; users are isolated over every interleaving of sessions; jail timing arithmetic. The dispatch table, the nil-state guards and maxLoginAttempts are regenerated from internal/session and decided against the RFC classes. The real handleCommand is driven for every payload type in the not-authenticated state.",
    note="Model tied to the real code by the facts translator and by the `dispatch` dialect (not-authenticated state only); authenticated/selected behaviour over the wire is covered by the wire oracle. Trusted: Lean kernel, facts translator, hooks."),
+ "C02": dict(cat="proof", sec="DESIGN.md section 6, C02",
+   text="Lean theorems at session level, full strength after the popResponders repair: every admissible change of the authoritative mailbox view, once its responder is queued, keeps the invariant 'replaying the queue on the snapshot gives the view' (change_step); a permitExpunge=false flush at any point keeps it (flush_false_replay_eq: exact snapshot equality), a permitExpunge=true flush realises it (flush_true_converges); hence for every history of changes and every placement of the observer's flushes a final NOOP leaves the snapshot equal to the view modulo \\Recent (converges). UID freshness is derived from the database's no-reuse contract. Wire-level oracle: long-lived view vs fresh EXAMINE after an exact barrier, over random multi-session histories.",
+   note="Proved over the responder model (tied by the flush correspondence dialect). The delivery of updates from other parties to the session (commit and broadcast in two transactions, own updates applied at once) is NOT inside the theorem: the wire oracle finds that own commands can overtake earlier foreign updates (known findings, reproduced with withheld updates). Trusted: Lean kernel, model, hooks (barrier, hold)."),
+ "C06": dict(cat="proof", sec="DESIGN.md section 6, C06",
+   text="Lean theorems over a model of user.apply and every apply* function: every update is acknowledged exactly once and the loop continues (ack_once, pipeline_continues; the Done call sites and the loop shape are regenerated facts); a valid update of each kind has exactly the described effect; a restating update changes nothing and queues no EXISTS/EXPUNGE/FETCH; invalid updates are refused with no effect. Three clauses are partial with named hypotheses and proved witnesses (known findings). Wire-level tie: a scripted connector against a whole server, each acknowledgement under a watchdog, index dump and fresh views compared with the Lean model after every step.",
+   note="Partial: MessagesCreated needs NoGhost, protected mailbox needs NotViaMessageUpdated, MessageIDChanged invariant needs InNoMailbox. Trusted: Lean kernel, model (own small abstract index), facts translator, scripted connector."),
+ "C07": dict(cat="proof", sec="DESIGN.md section 6, C07",
+   text="Lean theorems over a step-list model of every operation (store calls, transaction boundaries, start-up recovery): for every operation and every step boundary, after a crash + recovery the visible state is the before- or the after-state (crash_atomic), every listed message is fetchable with its exact bytes, left-overs are removed; injected errors likewise up to what the error handler commits. The two structural facts the proofs use (one visible transaction; store discipline) are checked on traces recorded from the real operations, and the recovery order is a regenerated fact. Fault enumeration on the real server: a child process is killed or a storage call fails at every recorded boundary, then the restarted server is compared over IMAP and the store directory is audited.",
+   note="Only process death and failing storage calls are covered; power loss / fsync and SQLite's own atomicity are trusted. fail_atomic is false for APPEND (known finding). Trusted: Lean kernel, model, interposers, trace judge."),
+ "C08": dict(cat="translation_validation", sec="DESIGN.md section 6, C08",
+   text="Every method of db.ReadOnly / db.Transaction (69) is modelled statement by statement in Lean and compared with the real SQLite client on generated sessions (transactions committed or aborted after a random prefix, list lengths on both sides of ChunkLimit up to 2500, full database dumps); in addition Lean theorems: chunk_faithful (every chunked operation equals its un-chunked meaning for ALL list lengths; the per-site precondition comes from a regenerated table of all 13 chunk loops), write_rollback / write_commit / read_no_effect, and all SQL texts well-formed (regenerated).",
+   note="The implementation<->model leg is differential testing with reported coverage; the chunk, rollback and SQL-text statements are proofs. SQLite itself (atomicity, AUTOINCREMENT, type affinity) is trusted/modelled as assumptions."),
+ "C09": dict(cat="proof", sec="DESIGN.md section 6, C09",
+   text="Lean theorems over a model of the store file format and of the per-id lock table: Get after Set returns exactly the stored bytes for every content, length, key and nonce (get_set, also at the regenerated block size); ids independent, overwrite, delete, list; wrong key / altered header / altered nonce / any change inside a block are detected (under the AEAD integrity hypothesis); what the format does NOT detect is proved too (block-boundary truncation, block exchange: known findings); per-id reader/writer exclusion for every schedule of the repaired releaseSyncRef. Oracle on the real store: sizes around block multiples, compressibility classes, every structural corruption, concurrent Get/Set/Delete probes.",
+   note="AES-GCM and LZ4 enter as explicit hypothesis structures (Laws, AEAD, Unforged, LZ4 sequence laws), never as axioms; OS file API trusted. The lock-table model is tied by source-shape facts and a probe, not step by step."),
+ "C10": dict(cat="proof", sec="DESIGN.md section 6, C10",
+   text="Lean model of the scanner, every parser primitive and the grammar of all 28 commands (+DONE) with explicit fuel, and a printer; theorems: cmd_roundtrip (every command, all well-formed argument values, every admissible atom/quoted/literal encoding and keyword case parses back to exactly the command, consuming exactly the line), keyword_case_irrelevant, string/number/seq-set/flag-list/date/date-time/search-key (any depth)/fetch-attribute/section/partial round trips. Tied to rfcparser + imap/command by differential testing on grammar-derived commands fed in random chunk sizes; the judge compares parsed = written on the implementation's answer.",
+   note="Two exclusions with witness theorems (known findings): '[' inside atoms/tags, list-mailbox written as a literal. Chunking of the byte stream is covered by correspondence only. Trusted: Lean kernel, model, generator."),
+ "C11": dict(cat="other", sec="DESIGN.md section 6, C11",
+   text="Partial proof: over the parser model, for EVERY input byte string: parsing terminates within fuel linear in the input (parse_terminates, full strength after the quoted-string repair), never panics, ends in a command, a parser error or EOF inside a literal; recursion depth of search keys is bounded by the input length and provably by no constant (depth_unbounded: reported, not excluded); retained bytes bounded at string level. Differential testing on malformed streams (truncation at every offset, flips, oversized numbers, NUL/8-bit, bare CR/LF, unterminated quotes, zero/oversize literals).",
+   note="The session loop (one completion per line, 20 errors close, other sessions unaffected) and process-level resource limits (Go stack, memory) are not under theorem here. Trusted: Lean kernel, model."),
+ "C12": dict(cat="proof", sec="DESIGN.md section 6, C12",
+   text="Lean theorems for ALL byte strings: the boundary scanner and header/body split terminate without panic and every part lies inside its parent (scan_total, split_total, parts_within_parent, sections_within_parent); the parenthesised-list writer's output reads back as exactly one balanced list with the intended shape for every tree of writer calls, so ENVELOPE/BODY/BODYSTRUCTURE are well-formed whatever the address/media-type parsers return (paramlist_wellformed, structure_wellformed, envelope_wellformed; under QuoteOK on the quoting function, checked on every generated case); for built MIME trees the sections and (without embedded multipart messages) the structure are the tree's. Oracle: garbage, mutated and built messages, deep nesting in a child process.",
+   note="rfc5322 address/date grammar and mime.ParseMediaType are abstract parameters (crash-freedom of rfc5322 is search only: stack overflow on deep comments is a known finding). Embedded multipart message flattening is a known finding pinned by an existing test."),
+ "C13": dict(cat="proof", sec="DESIGN.md section 6, C13",
+   text="Lean theorems for every byte string, path, field list and offset: the server's id header is spliced exactly in front of the first header field and removable (splice_exact, splice_removable); RFC822.SIZE is the literal's length; Header ++ Body = literal for every section; BODY[n.m] is a byte range inside its parent; partial <o.n> is drop/take for every parsed offset/count (no panic for parsed numbers, decided from regenerated parser facts); HEADER.FIELDS / .NOT partition the header entries exactly (full strength after the header repair); literal framing announces exactly the bytes that follow. Tied to rfc822 and the FETCH item code by differential testing with a MIME builder and a garbage stream; judges evaluate the relations on the implementation's answers.",
+   note="mime.ParseMediaType is an oracle parameter recorded from the real function. Four deviations are known findings (top-level message/rfc822, value starting with a colon, unterminated multipart offset, delimiter transport padding)."),
+ "C14": dict(cat="proof", sec="DESIGN.md section 6, C14",
+   text="Lean theorems: match_eq_spec for EVERY reference, pattern, delimiter and name (no hypotheses after the four repairs): gluon's regex-based matcher equals the RFC 3501 recursive wildcard spec incl. the trailing-% superior rule; canon, matchRoot, listSuperiors, listInferiors equal their specs; list_exact / lsub_exact: for every Go map iteration order LIST/LSUB select exactly the spec's names with \\Noselect exactly for pure parents; names-level model of CREATE/DELETE/RENAME refines the reference hierarchy model (parents created, inferiors carried, INBOX protected, names unique). The pieces match() and canon() are built from are regenerated facts. Wire oracle: generated namespace histories (sessions + connector) and LIST/LSUB queries against the Lean model, 4 delimiters.",
+   note="Strings are modelled as valid UTF-8 char lists, single-character delimiter. Nine namespace deviations found on the wire are known findings. Trusted: Lean kernel, model, facts, wire oracle."),
+ "C15": dict(cat="proof", sec="DESIGN.md section 6, C15",
+   text="Lean model of Mailbox.Search and every buildSearchOp*, and an RFC 3501 predicate spec; theorems for every key tree and view: results ascending, duplicate-free, a sublist of the view; NOT is the complement, OR the union, lists/juxtaposition the intersection; UID SEARCH returns the UIDs of the same messages; per-key meaning (flags, size, BEFORE/ON by UTC day, body/text substring, envelope keys); search_is_filter under the named Conforming clauses, each with a witness replayed on the server. Wire oracle: generated mailboxes with known data (incl. views still holding messages expunged elsewhere, parallel and serial evaluation) and key trees to depth 6, judged by the Lean model and spec.",
+   note="Partial where the server deviates from the RFC (seven known findings: SINCE zone, first-field-only, empty key, unparsable Date, UID key on empty mailbox). Header parsing, x/text decoding and Date parsing are inputs known by construction."),
+ "C16": dict(cat="proof", sec="DESIGN.md section 6, C16",
+   text="Lean theorems on the whole text-to-messages pipeline, for every input text, view and magnitude: digit strings parse to their value iff it fits 32 bits; the selection equals the RFC 3501 set (each message once, order of first mention) or the command fails; any number beyond the count, however large, is an error and is never mapped to a message (beyond_count_is_error, full strength after the parser repair); UID sets skip absent UIDs; no panic for any input; binary search = lower bound. Which functions may take a message set apart is a regenerated, decided table. Wire oracles: FETCH/STORE/COPY/MOVE/SEARCH/UID EXPUNGE (+UID forms, stale views) judged by the Lean spec.",
+   note="Two SEARCH deviations are known findings (number beyond count accepted; UID key on empty mailbox refused). Trusted: Lean kernel, model tied by resolve/seqset-parse dialects and the wire model."),
+ "C19": dict(cat="other", sec="DESIGN.md section 6, C19",
+   text="Partial proof (partial by nature): Lean transition systems and theorems: QueuedChannel is FIFO and loss-free for every interleaving, its consumer exits after CloseAndDiscardQueued (and State.Close / Server.Close use that variant: regenerated fact) but provably not after plain Close without a reader; generic theorems acyclic_no_deadlock and lockset_no_conflict over unboundedly many threads, instantiated by facts regenerated from the source (lock-order graph acyclic; the four guarded fields accessed only under their lock); the teardown protocol completes under the single assumption that session loops observe Done. Oracles on the real code: queue histories judged against the model, teardown scenarios with goroutine-leak probes; race detector run in the thorough tier (search only).",
+   note="Data-race freedom of fields that are unguarded by design and scheduler-dependent liveness are NOT decided by theorem (one race is a known finding). The lock facts are lexical (per lock class, source order)."),
+ "C20": dict(cat="proof", sec="DESIGN.md section 6, C20",
+   text="Lean theorems over a model of Mailbox.Append / AppendRegular / recovered-message handling with the connector and storage as a failure script, for every script and command sequence: OK [APPENDUID] implies the message is in the target under that UID (append_ok_present) with the exact bytes under named conditions; a non-size rejection leaves the bytes in the recovery mailbox, once per hash (under named hypotheses, each shown necessary by a witness); the recovery mailbox is listed iff non-empty, exists exactly once, is protected in any letter case, and its messages can be copied/moved out. Source facts (hashed header fields, call order, guards) are regenerated and decided. Wire oracle with a failing connector and store against the Lean model.",
+   note="Partial: exactly-once recovery needs HashInjectiveOn / NoStorageFaultAfterHashInsert / NoFaultAfterHashErase (four known findings). Single session; connector updates are not delivered during a sequence."),
 }
 
 def main():
